@@ -285,7 +285,9 @@ def _streaming_runtime(repo: Repo, rep: Report) -> None:
         raise AnalysisError("anchor vanished: iter_sse / _parse_sse_event")
     r = _Relabel(rep, "R5.7")
     c18._sse_typestate(sse, r)
-    c18._parse_event_rules(pe, r)
+    from sa.report import with_flatten_fallback as _wff57
+
+    _wff57(r, pe, c18._parse_event_rules)
 
 
 def _neg_attrs(e: ast.AST) -> Set[str]:
